@@ -801,6 +801,101 @@ fn reference_mn(input: &str) -> (Vec<(String, usize, usize)>, Log) {
     (items, log)
 }
 
+// ---------------------------------------------------------------- bump x every outcome x every variant kind
+/// Every callback of `MR` first BUMPS over the `+` signs that follow its match and then decides
+/// (by the length of the match proper) among all outcomes its return type has - on unit variants
+/// and on value variants. Whatever the outcome (item, default error, custom error, skip), the
+/// bumped bytes belong to the current item / skipped region: its span covers them, the error
+/// callback and the next item see the lexer behind them.
+fn bumped<'s>(lex: &mut Lexer<'s, MR>) -> usize {
+    let n = lex.span().end - lex.span().start;
+    let k = lex.remainder().bytes().take_while(|b| *b == b'+').count();
+    lex.bump(k);
+    note(lex);
+    n
+}
+#[derive(Logos, Debug, Clone, PartialEq)]
+#[logos(extras = Log, error(MyErr, callback = |lex| MyErr::At(lex.span().start, lex.span().end)))]
+#[logos(skip("m[0-9]*", |lex| { bumped(lex); }))]
+#[logos(skip("n[0-9]*", |lex| if bumped(lex) % 2 == 0 { Err(MyErr::Custom(7)) } else { Ok(Skip) }))]
+pub enum MR {
+    #[regex("a[0-9]*", |lex| bumped(lex) % 2 == 0)]
+    A,
+    #[regex("b[0-9]*", |lex| { bumped(lex); })]
+    B,
+    #[regex("c[0-9]*", |lex| { let n = bumped(lex); if n % 4 == 0 { Err(MyErr::Default) } else if n % 2 == 0 { Err(MyErr::Custom(n)) } else { Ok(()) } })]
+    C,
+    #[regex("d[0-9]*", |lex| { bumped(lex); Skip })]
+    D,
+    #[regex("e[0-9]*", |lex| { let n = bumped(lex); if n % 2 == 0 { Err(MyErr::Custom(n)) } else { Ok(Skip) } })]
+    E,
+    #[regex("f[0-9]*", |lex| if bumped(lex) % 2 == 0 { Filter::Skip } else { Filter::Emit(()) })]
+    F,
+    #[regex("g[0-9]*", |lex| match bumped(lex) % 3 { 0 => FilterResult::Error(MyErr::Custom(0)), 1 => FilterResult::Emit(()), _ => FilterResult::Skip })]
+    G,
+    #[regex("h[0-9]*", bumped)]
+    H(usize),
+    #[regex("i[0-9]*", |lex| { let n = bumped(lex); if n % 2 == 0 { None } else { Some(n) } })]
+    I(usize),
+    // (an Err that EQUALS the default error is still the callback's own error: the error callback is not consulted)
+    #[regex("j[0-9]*", |lex| { let n = bumped(lex); if n % 4 == 0 { Err(MyErr::Default) } else if n % 2 == 0 { Err(MyErr::Custom(n)) } else { Ok(n) } })]
+    J(usize),
+    #[regex("k[0-9]*", |lex| { let n = bumped(lex); if n % 2 == 0 { Filter::Skip } else { Filter::Emit(n) } })]
+    K(usize),
+    #[regex("l[0-9]*", |lex| { let n = bumped(lex); match n % 3 { 0 => FilterResult::Error(MyErr::Custom(n)), 1 => FilterResult::Emit(n), _ => FilterResult::Skip } })]
+    L(usize),
+    #[token("+")]
+    Plus,
+    #[token(" ")]
+    Sp,
+}
+
+fn reference_mr(input: &str) -> (Vec<(String, usize, usize)>, Log) {
+    let b = input.as_bytes();
+    let (mut items, mut log): (Vec<(String, usize, usize)>, Log) = (vec![], vec![]);
+    let mut p = 0;
+    while p < b.len() {
+        let c = b[p];
+        if (b'a'..=b'n').contains(&c) {
+            let n = 1 + b[p + 1..].iter().take_while(|x| x.is_ascii_digit()).count();
+            let e = p + n + b[p + n..].iter().take_while(|x| **x == b'+').count();
+            log.push((p, e, input[p..e].to_string()));
+            let dflt = format!("Err(At({p}, {e}))");
+            let out: Option<String> = match c {
+                b'a' => Some(if n % 2 == 0 { "Ok(A)".into() } else { dflt }),
+                b'b' => Some("Ok(B)".into()),
+                b'c' => Some(if n % 4 == 0 { "Err(Default)".into() } else if n % 2 == 0 { format!("Err(Custom({n}))") } else { "Ok(C)".into() }),
+                b'd' => None,
+                b'e' => if n % 2 == 0 { Some(format!("Err(Custom({n}))")) } else { None },
+                b'f' => if n % 2 == 0 { None } else { Some("Ok(F)".into()) },
+                b'g' => match n % 3 { 0 => Some("Err(Custom(0))".into()), 1 => Some("Ok(G)".into()), _ => None },
+                b'h' => Some(format!("Ok(H({n}))")),
+                b'i' => Some(if n % 2 == 0 { dflt } else { format!("Ok(I({n}))") }),
+                b'j' => Some(if n % 4 == 0 { "Err(Default)".into() } else if n % 2 == 0 { format!("Err(Custom({n}))") } else { format!("Ok(J({n}))") }),
+                b'k' => if n % 2 == 0 { None } else { Some(format!("Ok(K({n}))")) },
+                b'l' => match n % 3 { 0 => Some(format!("Err(Custom({n}))")), 1 => Some(format!("Ok(L({n}))")), _ => None },
+                b'm' => None,
+                _ => if n % 2 == 0 { Some("Err(Custom(7))".into()) } else { None },
+            };
+            if let Some(o) = out {
+                items.push((o, p, e));
+            }
+            p = e;
+        } else if c == b' ' || c == b'+' {
+            items.push((if c == b' ' { "Ok(Sp)" } else { "Ok(Plus)" }.to_string(), p, p + 1));
+            p += 1;
+        } else {
+            let mut e = p + 1;
+            while !input.is_char_boundary(e) {
+                e += 1;
+            }
+            items.push((format!("Err(At({p}, {e}))"), p, e));
+            p = e;
+        }
+    }
+    (items, log)
+}
+
 fn observe<'s, T>(input: &'s str) -> (Vec<(String, usize, usize)>, Log)
 where
     T: Logos<'s, Source = str, Extras = Log> + std::fmt::Debug,
@@ -909,6 +1004,20 @@ pub fn run(tier: &str, rep: &mut Report) {
     for s in ["a1 b c1 d++e f1g h12i", "d1+++ d+a12", "c12c1 b1b12b123", "e1e f f1 g12g"] {
         check(rep, "MN", s, observe::<MN>(s), reference_mn(s), &mut digest);
     }
+    // bump, then every outcome, on unit and value variants and in skip callbacks
+    for letter in "abcdefghijklmn".chars() {
+        for digits in ["", "1", "12", "123"] {
+            for plus in 0..=3usize {
+                for tail in ["", " ", "a", "h1", "é", "d+"] {
+                    let s = format!("{letter}{digits}{}{tail}", "+".repeat(plus));
+                    check(rep, "MR", &s, observe::<MR>(&s), reference_mr(&s), &mut digest);
+                    let s = format!("+ {letter}{digits}{}{tail}", "+".repeat(plus));
+                    check(rep, "MR", &s, observe::<MR>(&s), reference_mr(&s), &mut digest);
+                }
+            }
+        }
+    }
+    strings(&["a", "c1", "i", "g12", "d", "n1", "+", " ", "é"], l + 1, &mut |s| check(rep, "MR", s, observe::<MR>(s), reference_mr(s), &mut digest));
     // closure bodies of several syntactic shapes
     strings(&["a", "b", "c", "f", "g", "h", "i", "0", "1", " ", "!", "é"], l + 1, &mut |s| check(rep, "CS", s, observe::<CS>(s), reference_cs(s), &mut digest));
     // longer digit runs and bump runs
